@@ -81,7 +81,7 @@ theorem inv_voteEnd {c : Cluster} (h : Inv c) (i : NodeId) (hf : FreshTerms (ste
     by_cases hen : (!(c.valid i && (c.nodes i).up)) = true
     · rw [if_pos hen]; exact h
     · rw [if_neg hen] at hf ⊢
-      cases htally : tally c.n el.req el.collected 1 with
+      cases htally : tally c.n el.req (el.collected.map (·.2)) 1 with
       | won =>
         simp only [htally] at hf ⊢
         rw [leaderRound_leaderTerms] at hf
